@@ -1,36 +1,48 @@
 /-
 C17 — sorting and regrouping options only reorder or merge postings.
 
-Model: Model/Regroup.lean (sort_posts / compare_items / sort_value_is_less_than,
-truncate_xacts, collapse_posts, subtotal_posts, by_payee_posts,
-day_of_week_posts, calc_posts).  All theorems are for every posting list.
+Model: Model/Regroup.lean (sort_posts / sort_xacts / compare_items /
+sort_value_is_less_than, truncate_xacts, collapse_posts, subtotal_posts,
+by_payee_posts, day_of_week_posts, calc_posts, stacked as chain.cc stacks them).
+All theorems are for every posting list and every valuation of the postings
+(`RPost.value`: what the amount expression yields, e.g. the cost under -B).
 
 * `--sort`: the output is a permutation of the input (`sort_perm`); when the key
   comparison is a strict weak order on the postings it is ordered by the key
   (`sort_sorted`), ties keep the input order (`sort_stable`), and it is the only
-  arrangement with these two properties (`sort_unique`), so the particular
-  stable algorithm (merge sort here, libstdc++'s std::stable_sort there) does not
-  matter.  The hypothesis is proved for date / payee / account keys, amounts of
-  one commodity, amounts that all carry a commodity, and every compound key of
-  these (`sortValueLess_swo`).  It is FALSE in general: `.simplified()` turns a
-  zero amount into INTEGER 0, which compares numerically with every commodity,
-  while two different commodities compare by symbol
-  (`sort_key_swo_everywhere_false`, witness −10 EUR, $0, $5).
-* `--head N` / `--tail N`: the handler (per-posting state machine with its early
-  stop, and the two loops of flush) equals `take N` / `drop (len − N)` on the list
-  of transaction groups, for every N ≥ 0 (`truncate_head`, `truncate_tail`).
+  arrangement with these two properties (`sort_unique`).  The hypothesis is
+  proved for date / payee / account keys, amounts of one commodity, amounts that
+  all carry a commodity, and every compound key of these (`sortValueLess_swo`).
+  It is FALSE in general (`sort_key_swo_everywhere_false`, witness −10 EUR, $0, $5).
+  `--sort-xacts` does the same inside every transaction and leaves the
+  transactions in place (`sort_xacts`); `--sort-all` is `--sort`.
+* `--head N` / `--tail M`, alone or together, negative counts included: the
+  handler (per-posting state machine with its early stop, and the two loops of
+  flush) keeps the transactions whose index passes the window of flush
+  (`truncate_window`, `window_spec`), which is `take N`, `drop (len − M)`, their
+  union, `drop K` for `--head -K` and `take (len − K)` for `--tail -K`.
 * `--subtotal`, `--by-payee`, `--dow`, `--collapse`, `--depth N`: `GroupSums` –
   one row per group, every group present, each row's value and the grand total
-  equal to the per-commodity sums (denotation `den`) of the member postings.
+  equal to the per-commodity sums (denotation `den`) of the member postings; also
+  for two stages in a row (`*_then_*`), where subtotal_posts must not be handed a
+  multi-commodity row (guard `noCompound`; the unguarded statement is refuted),
+  and with the grand total through any stack of stages (`regroup_total`).
+  subtotal_posts sums `post.amount`, not the amount expression: under a valuation
+  that differs from the amount its rows are not the sums of the register's values
+  (`subtotal_valued_everywhere_false`).
+  Rows of one transaction under `--depth N` come in account-name order
+  (`collapse_depth_rows_sorted`).
 
-The comparison operators of the truncation window and the `.simplified()` flag
-are the ones read from the source (Gen/Regroup.lean): the theorems below are
-proved against those, and the function bodies the model mirrors are pinned.
+The comparison operators of the truncation window, of the totals map and the
+`.simplified()` flag are the ones read from the source (Gen/Regroup.lean): the
+theorems below are proved against those, and the function bodies the model
+mirrors, the option wiring and chain_post_handlers are pinned.
 -/
 import LedgerModel.Lemmas.RegroupSort
 import LedgerModel.Lemmas.RegroupRuns
 import LedgerModel.Lemmas.RegroupSums
 import LedgerModel.Lemmas.RegroupGroups
+import LedgerModel.Lemmas.RegroupSortX
 import LedgerModel.Model.RegroupPinned
 
 namespace Ledger
@@ -53,6 +65,9 @@ theorem C17.containers_pinned :
      Gen.Regroup.subtotalKey, Gen.Regroup.subtotalAmount, Gen.Regroup.dowIndex) =
     (Pinned.Regroup.valuesMapType, Pinned.Regroup.totalsMapType, Pinned.Regroup.payeeMapType,
      Pinned.Regroup.subtotalKey, Pinned.Regroup.subtotalAmount, Pinned.Regroup.dowIndex) := rfl
+
+/-- collapse's totals map compares account names with `<` (ascending name order) -/
+theorem C17.totals_order : Gen.Regroup.totalsOrder = .lt := rfl
 
 /-- the truncation window and early stop compare as the model was proved for -/
 theorem C17.window_ops :
@@ -115,7 +130,8 @@ def C17.SortKeySWOEverywhere : Prop := ∀ (ks : List SortKey) (l : List RPost),
 
 def C17.w (line : Nat) (q : Rat) (comm : String) : RPost :=
   { line := line, xid := 1, date := 18262, payee := "p", account := "A", virt := false,
-    amount := .amt { q := q, prec := 2, keep := false, comm := comm } }
+    amount := .amt { q := q, prec := 2, keep := false, comm := comm },
+    value := .amt { q := q, prec := 2, keep := false, comm := comm }, vdate := 18262 }
 
 /-- It is false: −10 EUR < $0 (numerically, the zero being INTEGER 0 after
     `.simplified()`), $0 < $5, yet $5 < −10 EUR (by commodity symbol). -/
@@ -168,6 +184,28 @@ theorem C17.sort_ordered_everywhere_false : ¬ C17.SortOrderedEverywhere := by
       · exact hbc e
       · have := hx _ e; rw [h2] at this; cases this
 
+/-! ### --sort-xacts -/
+
+/-- `--sort-xacts`: the postings are permuted inside their transactions only – the
+    transactions (runs of one `xact`) of the output are those of the input, in the
+    same order, each sorted by `sort_posts` (so `sort_perm`, `sort_sorted`,
+    `sort_stable`, `sort_unique` apply to every transaction by itself). -/
+theorem C17.sort_xacts (ks : List SortKey) (l : List RPost) :
+    (sortXacts ks l).Perm l ∧
+    sortXacts ks l = ((runs pxid l).map (sortPosts ks)).flatten ∧
+    runs pxid (sortXacts ks l) = (runs pxid l).map (sortPosts ks) :=
+  ⟨sortXacts_perm ks l, by simp [sortXacts, List.flatMap_def, pxid], sortXacts_runs ks l⟩
+
+/-- every transaction of the `--sort-xacts` output is ordered by the key and stable,
+    when the comparison is a strict weak order on that transaction -/
+theorem C17.sort_xacts_sorted (ks : List SortKey) (l : List RPost)
+    (h : ∀ g ∈ runs pxid l, SWOOn (postLess ks) g) :
+    ∀ g' ∈ runs pxid (sortXacts ks l), g'.Pairwise (fun a b => postLess ks b a = false) := by
+  intro g' hg'
+  rw [sortXacts_runs] at hg'
+  obtain ⟨g, hg, rfl⟩ := List.mem_map.mp hg'
+  exact C17.sort_sorted ks g (h g hg)
+
 /-! ### --head / --tail -/
 
 /-- `runs` is the decomposition into transactions the handlers see: it
@@ -183,6 +221,20 @@ theorem C17.plain_runs (f : Filter) (j : Journal) (hd : j.xacts.Pairwise (fun a 
     runs pxid (plainPosts f j) = (j.xacts.map (xactPosts f)).filter (fun g => !g.isEmpty) :=
   plain_runs_aux f j.xacts hd
 
+/-- For EVERY pair of counts (positive, zero, negative) the truncate_xacts handler
+    keeps exactly the transactions whose index `i` (of `len`) passes the window -/
+theorem C17.truncate_window {α : Type} (xid : α → Nat) (head tail : Int) (rows : List α) :
+    truncate xid head tail rows =
+      selRuns (fun i => truncPrint head tail ((runs xid rows).length : Nat) (i : Int)) 0 (runs xid rows) :=
+  Regroup.truncate_window xid head tail rows
+
+/-- … and the window is: the first `head`, or all but the first `-head`, or the last
+    `tail`, or all but the last `-tail` (their union when both are given). -/
+theorem C17.window_spec (head tail len i : Int) :
+    truncPrint head tail len i = true ↔
+      (head > 0 ∧ i < head) ∨ (head < 0 ∧ i ≥ -head) ∨ (tail > 0 ∧ len - i ≤ tail) ∨ (tail < 0 ∧ len - i > -tail) :=
+  truncPrint_iff head tail len i
+
 /-- `--head N` keeps exactly the first N transactions, for every N ≥ 0
     (N = 0: nothing; N beyond the count: everything). -/
 theorem C17.truncate_head {α : Type} (xid : α → Nat) (N : Nat) (rows : List α) :
@@ -194,62 +246,84 @@ theorem C17.truncate_tail {α : Type} (xid : α → Nat) (N : Nat) (rows : List 
     truncate xid 0 (N : Int) rows = ((runs xid rows).drop ((runs xid rows).length - N)).flatten :=
   truncate_tail_eq xid N rows
 
-/-- In the report the truncated rows are rows of the plain register, running
-    totals included (the handler sits behind calc_posts). -/
-theorem C17.head_tail_report (N : Nat) (posts : List RPost) :
-    report (.head N) posts = .ok (((runs (fun r => r.1.xid) (register posts)).take N).flatten) ∧
-    report (.tail N) posts = .ok (((runs (fun r => r.1.xid) (register posts)).drop
-      ((runs (fun r => r.1.xid) (register posts)).length - N)).flatten) := by
-  constructor
-  · simp only [report]; rw [truncate_head_eq]
-  · simp only [report]; rw [truncate_tail_eq]
+/-- `--head N --tail M` keeps the first N transactions and the last M (a union, as
+    flush computes it: nothing twice, everything when N + M ≥ count). -/
+theorem C17.truncate_head_tail {α : Type} (xid : α → Nat) (N M : Nat) (rows : List α) :
+    truncate xid (N : Int) (M : Int) rows =
+      ((runs xid rows).take N ++ (runs xid rows).drop (max N ((runs xid rows).length - M))).flatten :=
+  truncate_head_tail_eq xid N M rows
+
+/-- `--head -K`: all but the first K transactions; `--tail -K`: all but the last K. -/
+theorem C17.truncate_negative {α : Type} (xid : α → Nat) (K : Nat) (hK : 0 < K) (rows : List α) :
+    truncate xid (-(K : Int)) 0 rows = ((runs xid rows).drop K).flatten ∧
+    truncate xid 0 (-(K : Int)) rows = ((runs xid rows).take ((runs xid rows).length - K)).flatten :=
+  ⟨truncate_neg_head_eq xid K hK rows, truncate_neg_tail_eq xid K hK rows⟩
+
+/-- In the report the truncated rows are rows of the register computed before
+    (running totals included: the handler sits behind calc_posts). -/
+theorem C17.head_tail_report (o : Opts) (posts s : List RPost) (h : regroup o posts = .ok s)
+    (ho : o.head.isSome ∨ o.tail.isSome) :
+    report o posts = .ok (selRuns
+      (fun i => truncPrint (o.head.getD 0) (o.tail.getD 0)
+        ((runs (fun r : RPost × Value => r.1.xid) (register (sortStage o s))).length : Nat) (i : Int)) 0
+      (runs (fun r : RPost × Value => r.1.xid) (register (sortStage o s)))) := by
+  simp only [report, h, Except.map, truncStage, ho, if_true]
+  rw [Regroup.truncate_window]
 
 /-! ### regrouping -/
 
-/-- the amounts of a journal's postings are quantities -/
-theorem C17.plain_allQty (f : Filter) (j : Journal) : AllQty (plainPosts f j) := by
-  intro p hp
-  simp only [plainPosts, List.mem_flatMap] at hp
-  obtain ⟨x, _, hx⟩ := hp
-  simp only [xactPosts, List.mem_filterMap] at hx
-  obtain ⟨q, _, hq⟩ := hx
-  split at hq
-  · split at hq
-    · cases hq; rfl
+/-- the amounts of a journal's postings are single quantities, and valued as themselves -/
+theorem C17.plain_good (f : Filter) (j : Journal) :
+    AllQty (plainPosts f j) ∧ GoodAmts (plainPosts f j) ∧ ∀ p ∈ plainPosts f j, rawAmt p = p.value := by
+  have key : ∀ p ∈ plainPosts f j, ∃ a, p.amount = .amt a ∧ p.value = .amt a := by
+    intro p hp
+    simp only [plainPosts, List.mem_flatMap] at hp
+    obtain ⟨x, _, hx⟩ := hp
+    simp only [xactPosts, List.mem_filterMap] at hx
+    obtain ⟨q, _, hq⟩ := hx
+    split at hq
+    · split at hq
+      · cases hq; exact ⟨_, rfl, rfl⟩
+      · cases hq
     · cases hq
-  · cases hq
+  refine ⟨fun p hp => ?_, fun p hp => ?_, fun p hp => ?_⟩
+  · obtain ⟨a, _, h2⟩ := key p hp; simp [h2, isQty]
+  · obtain ⟨a, h1, _⟩ := key p hp; exact ⟨.amt a, by simp [subAmt, h1], rfl⟩
+  · obtain ⟨a, h1, h2⟩ := key p hp; simp [rawAmt, subAmt, h1, h2]
 
 /-- calc_posts: the running total on row `k` is the per-commodity sum of the
-    amounts of rows `0..k`; on the last row it is the grand total. -/
+    values of rows `0..k`; on the last row it is the grand total. -/
 theorem C17.running_total (rows : List RPost) (hq : AllQty rows) (c : Comm) (k : Nat) (r : RPost × Value)
     (hr : (register rows)[k]? = some r) : r.2.den c = sumDen (rows.take (k + 1)) c := by
   have := runTotals_den .void rfl rows hq c k r hr
   have hv : Value.void.den c = 0 := rfl
   rw [this, hv]; grind
 
-/-- `--subtotal`: one row per account, each the exact sum of that account's postings. -/
-theorem C17.subtotal_sums (posts rows : List RPost) (hq : AllQty posts) (h : subtotal posts = .ok rows) :
-    GroupSums (fun p => p.account) (fun r => r.account) posts rows :=
-  subtotal_groups posts rows hq h
+/-- `--subtotal`: one row per account, each the exact sum of that account's
+    `post.amount`s (`rawAmt`), whatever the valuation. -/
+theorem C17.subtotal_sums (posts rows : List RPost) (hq : GoodAmts posts) (h : subtotal posts = .ok rows) :
+    GroupSums rawAmt (fun r => r.value) (fun p => p.account) (fun r => r.account) posts rows :=
+  (subtotal_groups posts rows hq h).1
 
 /-- `--by-payee`: one row per (payee, account). -/
-theorem C17.by_payee_sums (posts rows : List RPost) (hq : AllQty posts) (h : byPayee posts = .ok rows) :
-    GroupSums (fun p => (p.payee, p.account)) (fun r => (r.payee, r.account)) posts rows :=
+theorem C17.by_payee_sums (posts rows : List RPost) (hq : GoodAmts posts) (h : byPayee posts = .ok rows) :
+    GroupSums rawAmt (fun r => r.value) (fun p => (p.payee, p.account)) (fun r => (r.payee, r.account)) posts rows :=
   byPayee_groups posts rows hq h
 
 /-- `--dow`: one row per (day of the week, account). -/
-theorem C17.dow_sums (posts rows : List RPost) (hq : AllQty posts) (h : dow posts = .ok rows) :
-    GroupSums (fun p => (Cal.weekday p.date, p.account)) (fun r => (Cal.weekday r.date, r.account)) posts rows :=
+theorem C17.dow_sums (posts rows : List RPost) (hq : GoodAmts posts) (h : dow posts = .ok rows) :
+    GroupSums rawAmt (fun r => r.value) (fun p => (Cal.weekday p.date, p.account)) (fun r => (Cal.weekday r.date, r.account))
+      posts rows :=
   dow_groups posts rows hq h
 
 /-- `--collapse`: transaction by transaction; a transaction with a single
     posting is passed through, any other becomes one `<Total>` row holding the
-    exact sum of its postings; the grand total is preserved. -/
+    exact sum of the values (amount expression) of its postings; the grand total is preserved. -/
 theorem C17.collapse_sums (posts : List RPost) (hq : AllQty posts) :
     collapse 0 true id posts = ((runs pxid posts).map (collapseGroup 0 true id)).flatten ∧
     (∀ g ∈ runs pxid posts,
       (collapseGroup 0 true id g = g ∧ g.length = 1) ∨
-      (GroupSums (fun _ => "<Total>") (fun r => r.account) g (collapseGroup 0 true id g))) ∧
+      (GroupSums (fun p => p.value) (fun r => r.value) (fun _ => "<Total>") (fun r => r.account) g (collapseGroup 0 true id g))) ∧
     (∀ c, sumDen (collapse 0 true id posts) c = sumDen posts c) := by
   refine ⟨collapse_eq_runs 0 true id posts, ?_, fun c => (collapse_total 0 true id (fun _ => List.Perm.refl _) posts hq c).1⟩
   intro g hg
@@ -260,14 +334,14 @@ theorem C17.collapse_sums (posts : List RPost) (hq : AllQty posts) :
   · exact Or.inr h
 
 /-- `--depth N` (N ≥ 1): every transaction becomes one row per ancestor account
-    at depth ≤ N, each the exact sum of the postings below it, whatever order
-    `σ` the totals map (keyed by `account_t *`) is enumerated in; the grand
-    total is preserved. -/
+    at depth ≤ N, each the exact sum of the values of the postings below it,
+    whatever order `σ` the totals map is enumerated in; the grand total is preserved. -/
 theorem C17.depth_sums (n : Nat) (hn : n ≠ 0) (σ : AMap Value → AMap Value) (hσ : ∀ m, (σ m).Perm m)
     (posts : List RPost) (hq : AllQty posts) :
     collapse n false σ posts = ((runs pxid posts).map (collapseGroup n false σ)).flatten ∧
     (∀ g ∈ runs pxid posts,
-      GroupSums (fun p => depthAccount n p.account) (fun r => r.account) g (collapseGroup n false σ g)) ∧
+      GroupSums (fun p => p.value) (fun r => r.value) (fun p => depthAccount n p.account) (fun r => r.account) g
+        (collapseGroup n false σ g)) ∧
     (∀ c, sumDen (collapse n false σ posts) c = sumDen posts c) := by
   refine ⟨collapse_eq_runs n false σ posts, ?_, fun c => (collapse_total n false σ hσ posts hq c).1⟩
   intro g hg
@@ -278,47 +352,152 @@ theorem C17.depth_sums (n : Nat) (hn : n ≠ 0) (σ : AMap Value → AMap Value)
   · cases h
   · rw [← hk]; exact h
 
-/-- The grand total: under each regrouping option the running total printed on
-    the last row equals, per commodity, the sum of all postings of the plain
-    register (no commodity dropped, none invented). -/
-theorem C17.grand_total (o : Opt)
-    (ho : o = .subtotal ∨ o = .collapse ∨ o = .byPayee ∨ o = .dow ∨ ∃ n, o = .depth n)
-    (posts : List RPost) (hq : AllQty posts) (rows : List (RPost × Value)) (h : report o posts = .ok rows)
-    (c : Comm) (r : RPost × Value) (hl : rows.getLast? = some r) : r.2.den c = sumDen posts c := by
-  have key : ∀ rs : List RPost, AllQty rs → sumDen rs c = sumDen posts c → rows = register rs →
-      r.2.den c = sumDen posts c := by
-    intro rs hqs hs he
-    subst he
-    have hlen : (register rs).length = rs.length := by
-      have := congrArg List.length (runTotals_fst .void rs)
-      simpa [register] using this
-    rw [List.getLast?_eq_getElem?] at hl
-    have := C17.running_total rs hqs c _ r hl
-    rw [this, hlen, ← hs]
-    congr 1
+/-- Under `--depth N` the rows of one transaction come in strictly ascending account
+    name order – the order of the totals map, whose comparator (read from the
+    source, `C17.totals_order`) is `<` on `fullname()`. -/
+theorem C17.collapse_depth_rows_sorted (n : Nat) (posts : List RPost) :
+    ∀ g ∈ runs pxid posts,
+      ((collapseGroup n false id g).map (fun r => r.account)).Pairwise
+        (fun a b => Gen.Regroup.totalsOrder = .lt ∧ a < b) := by
+  intro g _
+  exact (collapseGroup_rows_sorted n g).imp (fun h => ⟨rfl, h⟩)
+
+/-! ### two regrouping options together (chain.cc order: dow | by-payee → subtotal → collapse) -/
+
+/-- `--by-payee --subtotal` and `--dow --subtotal`: when no row handed to subtotal_posts is a
+    compound (multi-commodity) one, the outcome is the `--subtotal` regrouping of the
+    original postings. -/
+theorem C17.by_payee_then_subtotal (posts r1 r2 : List RPost) (hq : GoodAmts posts) (h1 : byPayee posts = .ok r1)
+    (hnc : noCompound r1 = true) (h2 : subtotal r1 = .ok r2) :
+    GroupSums rawAmt (fun r => r.value) (fun p => p.account) (fun r => r.account) posts r2 :=
+  byPayee_subtotal_groups posts r1 r2 hq h1 hnc h2
+
+theorem C17.dow_then_subtotal (posts r1 r2 : List RPost) (hq : GoodAmts posts) (h1 : dow posts = .ok r1)
+    (hnc : noCompound r1 = true) (h2 : subtotal r1 = .ok r2) :
+    GroupSums rawAmt (fun r => r.value) (fun p => p.account) (fun r => r.account) posts r2 :=
+  dow_subtotal_groups posts r1 r2 hq h1 hnc h2
+
+/-- The same without the guard – the sums identity one would like for the stack. -/
+def C17.StackedSubtotalEverywhere : Prop :=
+  ∀ (posts r1 r2 : List RPost), GoodAmts posts → byPayee posts = .ok r1 → subtotal r1 = .ok r2 →
+    GroupSums rawAmt (fun r => r.value) (fun p => p.account) (fun r => r.account) posts r2
+
+/-- two postings of one payee to one account in two commodities -/
+def C17.w2 : List RPost :=
+  [{ C17.w 2 1 "$" with payee := "p", account := "A" }, { C17.w 3 1 "EUR" with payee := "p", account := "A" }]
+
+def C17.okOr (e : Except RErr (List RPost)) : List RPost :=
+  match e with
+  | .ok r => r
+  | .error _ => []
+
+/-- It is false: `--by-payee` hands `A  $1, 1 EUR` over as a compound posting, whose
+    `post.amount` is null; `--subtotal` then reports 0 for A (filters.cc 902). -/
+theorem C17.stacked_subtotal_everywhere_false : ¬ C17.StackedSubtotalEverywhere := by
+  intro h
+  have hg : GoodAmts C17.w2 := by
+    intro p hp
+    simp only [C17.w2, List.mem_cons, List.not_mem_nil, or_false] at hp
+    rcases hp with rfl | rfl <;> exact ⟨_, rfl, rfl⟩
+  have h1 : byPayee C17.w2 = .ok (C17.okOr (byPayee C17.w2)) := by decide +kernel
+  have h2 : subtotal (C17.okOr (byPayee C17.w2)) = .ok (C17.okOr (subtotal (C17.okOr (byPayee C17.w2)))) := by
+    decide +kernel
+  have G := h _ _ _ hg h1 h2
+  have ht := G.total "$"
+  have : ¬ (sumDenBy (fun r => r.value) (C17.okOr (subtotal (C17.okOr (byPayee C17.w2)))) "$" =
+      sumDenBy rawAmt C17.w2 "$") := by decide +kernel
+  exact this ht
+
+/-- `--subtotal --collapse` / `--subtotal --depth N`: the subtotal rows form one transaction, so
+    the outcome is the original postings regrouped by ancestor account at depth N (one `<Total>`
+    for N = 0), unless `--collapse` passes a lone row through. -/
+theorem C17.subtotal_then_collapse (depth : Nat) (pass : Bool) (posts r1 : List RPost) (hq : GoodAmts posts)
+    (h1 : subtotal posts = .ok r1) :
+    (depth = 0 ∧ pass = true ∧ r1.length = 1 ∧ collapse depth pass id r1 = r1) ∨
+    GroupSums rawAmt (fun r => r.value) (fun p => totalsKeyOf depth p.account) (fun r => r.account) posts
+      (collapse depth pass id r1) :=
+  subtotal_collapse_groups depth pass posts r1 hq h1
+
+/-- `--by-payee --depth N` (N ≥ 1): one row per (payee, ancestor account at depth N) -/
+theorem C17.by_payee_then_depth (n : Nat) (hn : n ≠ 0) (posts r1 : List RPost) (hq : GoodAmts posts)
+    (h1 : byPayee posts = .ok r1) :
+    GroupSums rawAmt (fun r => r.value) (fun p => (p.payee, depthAccount n p.account)) (fun r => (r.payee, r.account))
+      posts (collapse n false id r1) :=
+  byPayee_depth_groups n hn posts r1 hq h1
+
+/-- `--dow --depth N` (N ≥ 1): one row per (day of the week, ancestor account at depth N) -/
+theorem C17.dow_then_depth (n : Nat) (hn : n ≠ 0) (posts r1 : List RPost) (hq : GoodAmts posts)
+    (h1 : dow posts = .ok r1) :
+    GroupSums rawAmt (fun r => r.value) (fun p => (Cal.weekday p.date, depthAccount n p.account))
+      (fun r => (Cal.weekday r.date, r.account)) posts (collapse n false id r1) :=
+  dow_depth_groups n hn posts r1 hq h1
+
+/-- The grand total through ANY stack of regrouping stages (--dow | --by-payee, --subtotal,
+    --collapse / --depth N): the per-commodity sum of the rows is that of the postings, given that
+    subtotal_posts reads what it is handed correctly – `hfirst`: the first subtotal-family stage
+    sees single amounts valued as themselves; `hmid`: no compound row goes from --dow or
+    --by-payee into --subtotal. -/
+theorem C17.regroup_total (o : Opts) (posts rows : List RPost) (h : regroup o posts = .ok rows)
+    (hq : AllQty posts)
+    (hfirst : (o.pre ≠ .none ∨ o.subtotal = true) → GoodAmts posts ∧ ∀ p ∈ posts, rawAmt p = p.value)
+    (hmid : o.pre ≠ .none → o.subtotal = true → ∀ s1, preStage o posts = .ok s1 → noCompound s1 = true)
+    (c : Comm) : sumDen rows c = sumDen posts c :=
+  (Regroup.regroup_total o posts rows h hq hfirst hmid c).1
+
+/-- … and the running total printed on the last row of the report is that grand total
+    (sorting included; truncation only drops rows). -/
+theorem C17.grand_total (o : Opts) (posts s : List RPost) (h : regroup o posts = .ok s)
+    (hq : AllQty posts)
+    (hfirst : (o.pre ≠ .none ∨ o.subtotal = true) → GoodAmts posts ∧ ∀ p ∈ posts, rawAmt p = p.value)
+    (hmid : o.pre ≠ .none → o.subtotal = true → ∀ s1, preStage o posts = .ok s1 → noCompound s1 = true)
+    (c : Comm) (r : RPost × Value) (hl : (register (sortStage o s)).getLast? = some r) :
+    r.2.den c = sumDen posts c := by
+  obtain ⟨htot, hqs⟩ := Regroup.regroup_total o posts s h hq hfirst hmid c
+  have hperm : (sortStage o s).Perm s := by
+    unfold sortStage
+    split
+    · exact List.Perm.refl _
+    · exact sortBy_perm _ _
+    · exact sortXacts_perm _ _
+  have hq2 : AllQty (sortStage o s) := fun p hp => hqs p (hperm.subset hp)
+  have hlen : (register (sortStage o s)).length = (sortStage o s).length := by
+    have := congrArg List.length (runTotals_fst .void (sortStage o s))
+    simpa [register] using this
+  rw [List.getLast?_eq_getElem?] at hl
+  have := C17.running_total (sortStage o s) hq2 c _ r hl
+  rw [this, hlen, ← htot]
+  have e : (sortStage o s).take ((sortStage o s).length - 1 + 1) = sortStage o s := by
     apply List.take_of_length_le; omega
-  have viaExcept : ∀ (e : Except RErr (List RPost)), e.map register = .ok rows →
-      ∃ rs, e = .ok rs ∧ rows = register rs := by
-    intro e he
-    cases e with
-    | error _ => simp [Except.map] at he
-    | ok rs => exact ⟨rs, rfl, by simpa [Except.map] using he.symm⟩
-  rcases ho with rfl | rfl | rfl | rfl | ⟨n, rfl⟩
-  · obtain ⟨rs, h1, h2⟩ := viaExcept _ h
-    have g := C17.subtotal_sums posts rs hq h1
-    exact key rs g.qty (g.total c) h2
-  · simp only [report, Except.ok.injEq] at h
-    have g := collapse_total 0 true id (fun _ => List.Perm.refl _) posts hq c
-    exact key _ g.2 g.1 h.symm
-  · obtain ⟨rs, h1, h2⟩ := viaExcept _ h
-    have g := C17.by_payee_sums posts rs hq h1
-    exact key rs g.qty (g.total c) h2
-  · obtain ⟨rs, h1, h2⟩ := viaExcept _ h
-    have g := C17.dow_sums posts rs hq h1
-    exact key rs g.qty (g.total c) h2
-  · simp only [report, Except.ok.injEq] at h
-    have g := collapse_total n false id (fun _ => List.Perm.refl _) posts hq c
-    exact key _ g.2 g.1 h.symm
+  rw [e]
+  exact wsum_perm _ hperm
+
+/-- The valuation: one would like `--subtotal` rows to be the sums of the register's
+    values (what the plain register shows as amounts, e.g. costs under -B). -/
+def C17.SubtotalValuedEverywhere : Prop :=
+  ∀ (posts rows : List RPost), GoodAmts posts → AllQty posts → subtotal posts = .ok rows →
+    ∀ c, sumDen rows c = sumDen posts c
+
+/-- a lot of 10 AAA valued at its cost $20 -/
+def C17.w3 : List RPost :=
+  [{ C17.w 2 10 "AAA" with value := .amt { q := 20, prec := 2, keep := false, comm := "$" } }]
+
+/-- It is false: subtotal_posts adds up `post.amount` (filters.cc 902), not the amount
+    expression.  `C17.subtotal_sums` is the theorem that holds (sums of `rawAmt`); they
+    coincide when the valuation is the identity (`hfirst` of `C17.regroup_total`). -/
+theorem C17.subtotal_valued_everywhere_false : ¬ C17.SubtotalValuedEverywhere := by
+  intro h
+  have hg : GoodAmts C17.w3 := by
+    intro p hp
+    simp only [C17.w3, List.mem_cons, List.not_mem_nil, or_false] at hp
+    subst hp; exact ⟨_, rfl, rfl⟩
+  have hq : AllQty C17.w3 := by
+    intro p hp
+    simp only [C17.w3, List.mem_cons, List.not_mem_nil, or_false] at hp
+    subst hp; rfl
+  have h1 : subtotal C17.w3 = .ok (C17.okOr (subtotal C17.w3)) := by decide +kernel
+  have := h _ _ hg hq h1 "$"
+  have hne : ¬ (sumDen (C17.okOr (subtotal C17.w3)) "$" = sumDen C17.w3 "$") := by decide +kernel
+  exact hne this
 
 /-! ### non-vacuity -/
 
@@ -332,6 +511,9 @@ example : AllCommoditised sample := allCommoditised_of_guard (by decide +kernel)
 example : (runs pxid sample).map List.length = [2, 4, 2] := by decide +kernel
 example : (truncate pxid 2 0 sample).map (·.line) = [2, 3, 6, 7, 8, 9] := by decide +kernel
 example : (truncate pxid 0 1 sample).map (·.line) = [12, 13] := by decide +kernel
+example : (truncate pxid 1 1 sample).map (·.line) = [2, 3, 12, 13] := by decide +kernel
+example : (truncate pxid (-1) 0 sample).map (·.line) = [6, 7, 8, 9, 12, 13] := by decide +kernel
+example : (truncate pxid 0 (-2) sample).map (·.line) = [2, 3] := by decide +kernel
 example : ((subtotal sample).toOption.map (fun rows => rows.map (·.account))) =
     some ["Assets:Bank:Checking", "Assets:Cash", "Expenses:Food", "Expenses:Rent"] := by decide +kernel
 example : ((byPayee sample).toOption.map List.length) = some 6 := by decide +kernel
@@ -339,5 +521,9 @@ example : ((dow sample).toOption.map List.length) = some 6 := by decide +kernel
 example : (collapse 0 true id sample).map (·.account) = ["<Total>", "<Total>", "<Total>"] := by decide +kernel
 example : ∀ c, sumDen (collapse 1 false id sample) c = sumDen sample c :=
   (C17.depth_sums 1 (by decide) id (fun _ => List.Perm.refl _) sample sample_allQty).2.2
+/-- the guard of the stacked theorems holds on single-commodity-per-group data … -/
+example : noCompound (C17.okOr (dow [C17.w 2 1 "$", C17.w 3 2 "$"])) = true := by decide +kernel
+/-- … and fails on the witness of `C17.stacked_subtotal_everywhere_false` -/
+example : noCompound (C17.okOr (byPayee C17.w2)) = false := by decide +kernel
 
 end Ledger
